@@ -283,3 +283,56 @@ def short(b, n=200):
 def obs_summary(o):
     return {"verdict": o["verdict"], "files": {k: short(v) for k, v in o["F"].items() if v is not None},
             "touched": o["U"], "trace": [t for t in o["T"].split(",") if t][:40], "marks": {k: short(v) for k, v in o["M"].items()}}
+
+# ---------------------------------------------------------------- vm_compute cross-check of whole-project cases
+def _coq_str(b):
+    if isinstance(b, str): b = b.encode("utf-8")
+    return "[" + ";".join(str(x) for x in b) + "]"
+def _coq_path(p):
+    return "[" + ";".join(_coq_str(c) for c in p.split("/") if c) + "]"
+
+def vm_crosscheck_projects(projects, model_obs, limit=3):
+    """re-evaluate up to `limit` (small) project cases with vm_compute inside coqc and compare with what the
+    extracted evaluator printed. Returns (number checked, list of mismatches)."""
+    picked = []
+    for p, o in zip(projects, model_obs):
+        if p.pp is not None or p.sched is None: continue
+        if sum(len(c) for _, c in p.files) > 1500 or len(trace_list(o)) > 9: continue
+        if any(c in BUILTIN_CMDS for c, _, _ in p.cmds): continue
+        picked.append((p, o))
+        if len(picked) >= limit: break
+    if not picked: return 0, []
+    L = ["Require Import Txtpp.Str Txtpp.Path Txtpp.Fs Txtpp.Sink Txtpp.Pp Txtpp.Dep Txtpp.Coord Txtpp.Run Txtpp.Crosscheck.", "Open Scope N_scope."]
+    for p, o in picked:
+        alld = set()
+        for q in list(p.dirs) + [f for f, _ in p.files]:
+            parts = [x for x in q.split("/") if x]
+            if q in p.dirs: alld.add("/" + "/".join(parts))
+            for i in range(1, len(parts)): alld.add("/" + "/".join(parts[:i]))
+        # the driver builds the tree in the order: dirs (sorted) then files; later entries first (List.rev of a prepend)... order is irrelevant for look-ups
+        fs = ["(%s, Dir)" % _coq_path(d) for d in sorted(alld)] + ["(%s, File %s)" % (_coq_path(f), _coq_str(c)) for f, c in p.files]
+        tbl = ["(%s, %s)" % (_coq_str(c), ("Some " + _coq_str(out)) if st == 0 else "None") for c, st, out in p.cmds]
+        cfg = "mkCfg %s [%s] %s %d %s %s" % (_coq_path(p.base), ";".join(_coq_str(i) for i in p.inputs), "true" if p.recursive else "false",
+                                             p.threads, ["Build", "InMemoryBuild", "Clean", "Verify"][p.mode], "true" if p.trailing else "false")
+        trace = []
+        for t in trace_list(o):
+            k, h = t.split(":"); trace.append("(%d, %s)" % ({"s": 0, "p1": 1, "p2": 2}[k], _coq_path(unhx(h).decode())))
+        tree = ["(%s, %s)" % (_coq_path(k), "Dir" if v is None else "File " + _coq_str(v)) for k, v in sorted(o["F"].items())]
+        v = {"ok": 0, "err": 1, "panic": 2, "fuel": 3}[o["verdict"]]
+        fuel = 4 * len(p.files) + 16
+        L.append("Eval vm_compute in (matches (txtpp_run (table_oracle [%s]) (%s) %d%%nat [%s]%%nat (mkW [%s] [])) %d [%s] [%s])." %
+                 (";".join(tbl), cfg, fuel, ";".join(str(x) for x in p.sched), ";".join(reversed(fs)), v, ";".join(trace), ";".join(tree)))
+    d = os.path.join(VERIF, ".cache"); os.makedirs(d, exist_ok=True)
+    f = os.path.join(d, "xcheck_%d.v" % os.getpid())
+    open(f, "w").write("\n".join(L) + "\n")
+    r = sh("coqc -noglob -Q %s Txtpp %s" % (os.path.join(COQ, "theories"), f), check=False, timeout=900)
+    for ext in (".vo", ".vok", ".vos", ".glob"):
+        try: os.remove(f[:-2] + ext)
+        except OSError: pass
+    if r.returncode != 0:
+        return 0, [("coqc failed on " + f, r.stdout[-800:])]
+    os.remove(f)
+    res = re.findall(r"=\s*(true|false)\s*:\s*bool", r.stdout)
+    bad = [(p.id, "vm_compute disagrees with the extracted evaluator") for (p, o), x in zip(picked, res) if x != "true"]
+    if len(res) != len(picked): bad.append(("?", "could not parse coqc output: " + r.stdout[-300:]))
+    return len(picked), bad
